@@ -4283,6 +4283,12 @@ static Value eval_statement(ASTNode *stmt, Environment *env) {
             }
 
             Value value = eval_expression(stmt->as.let.value, env);
+            if (value.type == VAL_STRING && value.as.string_val && stmt->as.let.value &&
+                (stmt->as.let.value->type == AST_FIELD_ACCESS || stmt->as.let.value->type == AST_TUPLE_INDEX)) {
+                /* the string belongs to the struct / union / tuple it was read from: the variable gets its own
+                 * copy, because the frame releases the strings of its variables when it ends */
+                value = create_string(value.as.string_val);
+            }
             env_define_var_with_type_info(env,
                                          stmt->as.let.name,
                                          stmt->as.let.var_type,
@@ -4307,6 +4313,10 @@ static Value eval_statement(ASTNode *stmt, Environment *env) {
 
         case AST_SET: {
             Value value = eval_expression(stmt->as.set.value, env);
+            if (value.type == VAL_STRING && value.as.string_val && stmt->as.set.value &&
+                (stmt->as.set.value->type == AST_FIELD_ACCESS || stmt->as.set.value->type == AST_TUPLE_INDEX)) {
+                value = create_string(value.as.string_val);   /* own copy, see AST_LET */
+            }
             env_set_var(env, stmt->as.set.name, value);
             
             /* Trace variable assignment */
